@@ -104,7 +104,8 @@ func (w *World) verifyLight(l *Light, s consensus.State, led *ref.Ledger, ctx st
 			w.violate(prop, inv, fmt.Sprintf("light client %d (json=%v) after %s: proof of %s element %x (leaf %d, spent=%v, in accumulator since height %d) does not verify against the state at height %d", l.idx, l.viaJSON, ctx, t.kind, t.id[:4], t.se.LeafIndex, t.spent, t.born, s.Index.Height))
 			return
 		}
-		if led != nil {
+		if led != nil && t.se.LeafIndex < led.Forest.N() && led.Forest.N() == s.Elements.NumLeaves {
+			// (a state that has parted from the reference ledger is reported where it parts: checkNode)
 			want := led.Forest.Path(t.se.LeafIndex)
 			if len(want) != len(t.se.MerkleProof) {
 				w.violate(prop, inv+"-path", fmt.Sprintf("light client %d after %s: proof length of %s element %x differs from the forest path", l.idx, ctx, t.kind, t.id[:4]))
